@@ -59,7 +59,11 @@ def row_obligations(ctx, row, P, Q, A, B, tag):
     ctx.oblige(cross(Rx - P.R, Zx - P.Z, Q.R - P.R, Q.Z - P.Z) == 0, "sound:on-wall-edge-line" + tag)
     ctx.oblige(cross(Rx - A.R, Zx - A.Z, B.R - A.R, B.Z - A.Z) == 0, "sound:on-segment-line" + tag)
     for (U, V, nm) in ((P, Q, "edge"), (A, B, "segment")):
-        ctx.oblige(And(Rx >= mn(U.R, V.R) - TOL, Rx <= mx(U.R, V.R) + TOL, Zx >= mn(U.Z, V.Z) - TOL, Zx <= mx(U.Z, V.Z) + TOL), "sound:within-%s-extent(+-1e-14)" % nm + tag)
+        cases = [And(V.R >= U.R, V.Z >= U.Z), And(V.R >= U.R, V.Z < U.Z), And(V.R < U.R, V.Z >= U.Z), And(V.R < U.R, V.Z < U.Z)]
+        ctx.oblige_cases(Rx >= mn(U.R, V.R) - TOL, "sound:within-%s-extent(+-1e-14):R>=min" % nm + tag, cases)
+        ctx.oblige_cases(Rx <= mx(U.R, V.R) + TOL, "sound:within-%s-extent(+-1e-14):R<=max" % nm + tag, cases)
+        ctx.oblige_cases(Zx >= mn(U.Z, V.Z) - TOL, "sound:within-%s-extent(+-1e-14):Z>=min" % nm + tag, cases)
+        ctx.oblige_cases(Zx <= mx(U.Z, V.Z) + TOL, "sound:within-%s-extent(+-1e-14):Z<=max" % nm + tag, cases)
 
 
 def run_fi_sound(ctx):
@@ -246,9 +250,11 @@ def run_poly_intersect(n1, n2, closed1, closed2):
                     hits.append(And(ab(d) >= 1.0e-6, proper))
             ctx.oblige(TRUE(isinstance(res, bool)), "returns a bool")
             if res:
-                ctx.oblige(Or(*hits), "True => some pair of segments crosses properly (|det|>=1e-6)")
+                for k, h in enumerate(hits):
+                    ctx.oblige(h, "True => some pair of segments crosses properly (|det|>=1e-6) [pair %d]" % k, kind="any-of:true-hit")
             else:
-                ctx.oblige(Not(Or(*hits)), "False => no pair of segments crosses properly (|det|>=1e-6)")
+                for k, h in enumerate(hits):
+                    ctx.oblige(Not(h), "False => pair %d does not cross properly (|det|>=1e-6)" % k)
 
     return run
 
